@@ -7,6 +7,7 @@ REPO="${VERIF_REPO_DIR:?set VERIF_REPO_DIR to a private copy of the repository}"
 [ "$REPO" = "/repo" ] && { echo "refusing to patch /repo"; exit 2; }
 export VERIF_REPO_DIR="$REPO"
 OUT="${MATRIX_OUT:-/verif/seeded}"
+# ONLY='*-r6' restricts the run to matching seed directories
 # optional split over several snapshots running side by side: LANE=k LANES=n takes every n-th seed
 LANE="${LANE:-0}"; LANES="${LANES:-1}"
 MXOUT=/tmp/verif_mx_out_$LANE
@@ -17,6 +18,7 @@ idx=0
 : > "$MATRIX"
 for d in "$HERE"/seeded/*/; do
   n=$(basename "$d")
+  case "$n" in ${ONLY:-*}) ;; *) continue ;; esac
   idx=$((idx+1)); [ $((idx % LANES)) -eq "$LANE" ] || continue
   [ -f "$d/patch.diff" ] || continue
   ( cd "$REPO" && git checkout -q -- . 2>/dev/null; git apply "$d/patch.diff" ) || { echo "$n: patch does not apply" >> "$MATRIX"; continue; }
